@@ -30,6 +30,12 @@ func runBubble(t *testing.T, rc *core.RunCtx, body func(t *testing.T, rc *core.R
 				if _, ok := r.(abandonRun); ok {
 					return
 				}
+				if _, ok := r.(chainmodel.DifficultyRunaway); ok {
+					// the model miner cannot follow the scenario any
+					// further (see chainmodel): no verdict
+					rc.Probe("run_ended_model_difficulty_runaway")
+					return
+				}
 				panic(r)
 			}
 		}()
